@@ -2,7 +2,8 @@
     ONLY statements pinned here; proofs live in Dashu.Ratio.*.  Fractions are pairs (n, d) : Z * Z
     with d > 0; [fval_lt]/[fval_eq] compare values by cross multiplication. *)
 From Dashu Require Import Base.Prelude Float.RoundSpec Ratio.SimplestSpec Ratio.SimplestModel Ratio.SimplerOrder
-  Ratio.SimplestProof Ratio.SimplestAsis Ratio.FareyProof Ratio.FareyNext Ratio.FareyNearest Ratio.SimplestFindings.
+  Ratio.SimplestProof Ratio.SimplestAsis Ratio.FareyProof Ratio.FareyNext Ratio.FareyNearest Ratio.SimplestFindings
+  Ratio.SimplestClosed Ratio.SimplestFloatEq Ratio.SimplestIeeeEq.
 Open Scope Z_scope.
 
 (** ** is_simpler_than *)
@@ -98,6 +99,68 @@ Theorem C18_nearest_check_sound : forall x L r sg, 0 < snd x -> nearest_check x 
   is_nearest x L r /\ ((sg = Positive /\ fval_lt x r) \/ (sg = Negative /\ fval_lt r x)).
 Proof. exact nearest_check_sound. Qed.
 Print Assumptions C18_nearest_check_sound.
+
+(** ** simplest_from_f32 / f64 / float *)
+(** the selection step: THE simplest canonical fraction of an interval with optional end points *)
+Theorem C18_simplest_closed : forall lo hi ilo ihi, canon lo -> canon hi -> fval_lt lo hi ->
+  exists r, simplest_closed (lo, hi, ilo, ihi) = Ok r /\ member (lo, hi, ilo, ihi) r /\
+    forall s, member (lo, hi, ilo, ihi) s -> s <> r -> simpler r s = true.
+Proof. exact simplest_closed_correct. Qed.
+Print Assumptions C18_simplest_closed.
+
+(** the code after error_bounds is that selection step (FBig) *)
+Theorem C18_simplest_from_float_glue : forall B md p sig0 ex0, 0 < B ->
+  simplest_from_float_asis B md p sig0 ex0 =
+  let '(sig, ex) := fnormalize B sig0 ex0 in
+  if sig =? 0 then Ok (Some (0, 1))
+  else match error_bounds_asis B md p sig ex with
+       | Ok (l, r, il, ir) =>
+           opt_wrap (simplest_closed (freduce (fsub (scaled B sig ex 1) l), freduce (fadd (scaled B sig ex 1) r), il, ir))
+       | Panic e => Panic e | Err e => Err e | OutOfFuel => OutOfFuel
+       end.
+Proof. exact simplest_from_float_asis_closed. Qed.
+Print Assumptions C18_simplest_from_float_glue.
+
+(** ... and of impl_simplest_from_float! (f32/f64) *)
+Theorem C18_simplest_from_ieee_glue : forall mb eb bits,
+  let E := (bits / 2 ^ mb) mod 2 ^ eb in
+  let M := bits mod 2 ^ mb in
+  let neg := (bits / 2 ^ (mb + eb)) mod 2 =? 1 in
+  let man0 := if E =? 0 then M else M + 2 ^ mb in
+  let man := if neg then - man0 else man0 in
+  let ex := (if E =? 0 then 1 else E) - (2 ^ (eb - 1) - 1) - mb in
+  let est : frac := if 0 <=? ex then (man * 2 ^ ex, 1) else (man, 2 ^ (- ex)) in
+  simplest_from_ieee_asis mb eb bits =
+  if E =? 2 ^ eb - 1 then Ok None
+  else if (E =? 0) && (M =? 0) then Ok (Some (0, 1))
+  else opt_wrap (simplest_closed (freduce (2 * fst est + 1, 2 * snd est), freduce (2 * fst est - 1, 2 * snd est),
+                                  Z.even bits, Z.even bits)).
+Proof. exact simplest_from_ieee_asis_closed. Qed.
+Print Assumptions C18_simplest_from_ieee_glue.
+
+(** outside the open finding classes F05-F08 the FBig code computes the specified optimum:
+    every base, mode, precision, normalised significand with at most p digits, exponent *)
+Theorem C18_simplest_from_float_unless_known : forall B md p sig ex,
+  2 <= B -> 0 < p -> sig mod B <> 0 -> ndigits B (Z.abs sig) <= p ->
+  known_float B md p sig = false ->
+  simplest_from_float_asis B md p sig ex = simplest_from_float_spec B md p sig ex.
+Proof. exact simplest_from_float_asis_spec. Qed.
+Print Assumptions C18_simplest_from_float_unless_known.
+
+Theorem C18_simplest_from_float_unlimited_unless_known : forall B md sig ex, 2 <= B -> sig mod B <> 0 ->
+  known_float B md 0 sig = false ->
+  simplest_from_float_asis B md 0 sig ex = simplest_from_float_spec B md 0 sig ex.
+Proof. exact simplest_from_float_asis_spec_unlimited. Qed.
+Print Assumptions C18_simplest_from_float_unlimited_unless_known.
+
+(** outside finding F04 (ulp >= 2) and except at normal powers of two (partial: see
+    Ratio/SimplestIeeeEq.v) the f32/f64 macro computes the specified optimum, for every format *)
+Theorem C18_simplest_from_ieee_unless_known_partial : forall mb eb bits, 1 <= mb ->
+  known_ieee mb eb bits = false ->
+  (bits mod 2 ^ mb =? 0) && (2 <=? (bits / 2 ^ mb) mod 2 ^ eb) = false ->
+  simplest_from_ieee_asis mb eb bits = simplest_from_ieee_spec mb eb bits.
+Proof. exact simplest_from_ieee_asis_spec_partial. Qed.
+Print Assumptions C18_simplest_from_ieee_unless_known_partial.
 
 (** ** findings: the repaired defects stay refuted on the pinned bodies, the open ones on the as-is models *)
 Theorem C18_F01_is_simpler_than_pinned_refuted :
